@@ -229,3 +229,20 @@ check('C19', 'E3+E2', 'model_checking',
       'handled inline by one producer in arrival order; some scenarios hit '
       'the execution cap (reported per scenario).',
       'DESIGN.md 6/C19')
+
+check('C10', 'E4/fault', 'fault_enumeration',
+      'exhaustive fault-sequence enumeration on the client world (scripted '
+      'wait primitives, virtual time)',
+      'Every word over {transport failure, namespace refused, success} up '
+      'to length 4 (quick) / 6 (thorough) for the successive reconnection '
+      'attempts x attempts cap {0,1,3}; 4 causes of loss x reconnection '
+      'on/off; a timing grid delay x delay_max x randomization_factor x 3 '
+      'jitter values (including delay > delay_max); shutdown() during every '
+      'back-off wait; a second loss right after a success and a loss during '
+      'an attempt; for Client and AsyncClient. Attempts, their parameters, '
+      'the CONNECT packets, the timeout handed to each back-off wait, '
+      'handler runs, the single-effort rule and the stop rules are compared '
+      'with the back-off table.',
+      'waiting observed through the abort-event wait / asyncio.wait_for '
+      'only; random.random replaced by constants.',
+      'DESIGN.md 6/C10')
